@@ -13,7 +13,9 @@
    error; I/O inside it ends by the I/O deadline or by the connection being closed (fairness assumption). *)
 From UV Require Import Base.Common.
 
-Inductive owner := Free | Mine | Others.
+(* Parked: a reader sits in Read holding the input lock and waits for data from the peer (conn.go Read: Handshake(),
+   then c.in.Lock(), then readRecord); nothing on this side can make it let go *)
+Inductive owner := Free | Mine | Others | Parked.
 Inductive intr := INone | IWait | IFired | INil.
 (* results: nil, the stored handshake error, the (unstored) BuildHandshakeState error, the caller's ctx error *)
 Inductive result := RNil | RHsErr | RBuildErr | RCtx.
@@ -54,7 +56,8 @@ Inductive label :=
 | LBodyOk | LBodyErr | LBuildErr   (* outcomes of P5/P6 *)
 | LIFire | LIDone          (* interrupter: select on handshakeCtx.Done() / done, u_conn.go:350-357 *)
 | LCancel                  (* environment: this caller's ctx is cancelled *)
-| EAcquire | ERelease | EInAcquire | EInRelease | EBodyOk | EBodyErr | ECloseConn.
+| EAcquire | ERelease | EInAcquire | EInRelease | EBodyOk | EBodyErr | ECloseConn
+| EReadPark | EReadWake.   (* a reader whose (implicit) Handshake has returned nil enters / leaves Read *)
 
 Definition upd (s : state) (mu il : owner) (co he cl : bool) (dc : bool) (i : intr) (q : pc) (r : option result) : state :=
   mkState mu il co he cl (cancellable s) (cancelled s) dc i q r.
@@ -135,14 +138,23 @@ Definition step (s : state) (l : label) : option state :=
                                     else Some (upd s Others Others false true (conn_closed s) (done_closed s) (it s) (p s) (ret s))
                 | _, _ => None end
   | ECloseConn => Some (upd s (mutex s) (inl s) (complete s) (hs_err s) true (done_closed s) (it s) (p s) (ret s))
+  (* Read calls Handshake() first and goes on only when it returned nil, i.e. the handshake is complete *)
+  | EReadPark => match inl s with
+                 | Free => if complete s then Some (upd s (mutex s) Parked (complete s) (hs_err s) (conn_closed s) (done_closed s) (it s) (p s) (ret s)) else None
+                 | _ => None end
+  | EReadWake => match inl s with
+                 | Parked => Some (upd s (mutex s) Free (complete s) (hs_err s) (conn_closed s) (done_closed s) (it s) (p s) (ret s))
+                 | _ => None end
   end.
 
 Definition all_labels : list label :=
-  [LC; LBodyOk; LBodyErr; LBuildErr; LIFire; LIDone; LCancel; EAcquire; ERelease; EInAcquire; EInRelease; EBodyOk; EBodyErr; ECloseConn].
+  [LC; LBodyOk; LBodyErr; LBuildErr; LIFire; LIDone; LCancel; EAcquire; ERelease; EInAcquire; EInRelease; EBodyOk; EBodyErr; ECloseConn;
+   EReadPark; EReadWake].
 Definition enabledb (s : state) (l : label) : bool := match step s l with Some _ => true | None => false end.
-(* progress may not rely on a cancellation, on a new lock acquisition by others, or on Close *)
+(* progress may not rely on a cancellation, on a new lock acquisition by others, on Close, or on a parked reader
+   being woken (that needs data from the peer, which may itself be waiting for this side to write) *)
 Definition progress_label (l : label) : bool :=
-  match l with LCancel | EAcquire | EInAcquire | ECloseConn => false | _ => true end.
+  match l with LCancel | EAcquire | EInAcquire | ECloseConn | EReadPark | EReadWake => false | _ => true end.
 Definition can_progress (s : state) : bool := existsb (fun l => progress_label l && enabledb s l) all_labels.
 Definition returned (s : state) : bool := match p s with PRet => true | _ => false end.
 
@@ -167,13 +179,15 @@ Definition outcome_ok (r : result) (co he cl ca : bool) : bool :=
 Definition swap (o : owner) : owner := match o with Mine => Others | x => x end.
 Definition view (s : state) := (swap (mutex s), swap (inl s), complete s, hs_err s, conn_closed s).
 Definition owner_eqb (a b : owner) : bool :=
-  match a, b with Free, Free | Mine, Mine | Others, Others => true | _, _ => false end.
+  match a, b with Free, Free | Mine, Mine | Others, Others | Parked, Parked => true | _, _ => false end.
 Definition env_allows (a b : owner * owner * bool * bool * bool) : bool :=
   let '(mu, il, co, he, cl) := a in
   let '(mu', il', co', he', cl') := b in
   (* locks *)
   (  (owner_eqb mu Free && owner_eqb mu' Others || owner_eqb mu Others && owner_eqb mu' Free) && owner_eqb il il' && eqb co co' && eqb he he' && eqb cl cl'
-  || (owner_eqb il Free && owner_eqb il' Others || owner_eqb il Others && owner_eqb il' Free) && owner_eqb mu mu' && eqb co co' && eqb he he' && eqb cl cl'
+  || (owner_eqb il Free && owner_eqb il' Others || owner_eqb il Others && owner_eqb il' Free
+      || owner_eqb il Free && owner_eqb il' Parked && co || owner_eqb il Parked && owner_eqb il' Free)
+     && owner_eqb mu mu' && eqb co co' && eqb he he' && eqb cl cl'
   (* the body, under both locks, when no result exists *)
   || owner_eqb mu Others && owner_eqb il Others && owner_eqb mu' Others && owner_eqb il' Others && negb co && negb he
      && (co' && negb he' || negb co' && he') && eqb cl cl'
